@@ -2,19 +2,20 @@
 """usage: storeseed.py <ID> <a|b> <target> <run regex> <pkg> [extra]  — copies a vetted round-2 seed into /verif/seeded/<ID><c|d>"""
 import os, json, shutil, re, sys
 id,k,target,rx,pkg=sys.argv[1:6]; extra=sys.argv[6] if len(sys.argv)>6 else ''
+rnd=int(os.environ.get('SEED_ROUND','2'))
 out=f'/tmp/vet/out/{id}{k}'
-k2={'a':'c','b':'d'}[k]
+k2={2:{'a':'c','b':'d'},3:{'a':'e','b':'f'}}[rnd][k]
 d=f'/verif/seeded/{id}{k2}'
 os.makedirs(d,exist_ok=True)
 shutil.copy(out+'/applied.diff', d+'/patch.diff')
-src=f'/tmp/seed2/{id}/_out/{k}'
+src=f'/tmp/seed{rnd}/{id}/_out/{k}'
 shutil.copy(src+'/demo_test.go', d+'/demo_test.go')
 readme=''
 if os.path.exists(src+'/README.md'):
     shutil.copy(src+'/README.md', d+'/README.agent.md'); readme=open(src+'/README.md').read()
 m=re.search(r'(?is)(coincid[^\n]*\n(?:.*\n){0,8})', readme) or re.search(r'(?is)(needs?[^\n]*\n(?:.*\n){0,6})', readme)
-meta={"property": id, "variant": k2, "round": 2,
-  "origin": "independent sub-agent (second, 'subtle and rare' round) given only the property text and a scratch worktree",
+meta={"property": id, "variant": k2, "round": rnd,
+  "origin": "independent sub-agent (round 2: 'subtle and rare'; round 3: 'other layers, cooperating sites, configuration/sequence-dependent') given only the property text and a scratch worktree",
   "patch": "patch.diff (git diff against /repo HEAD at the time of vetting)",
   "demonstration": {"file": "demo_test.go", "copy_to": target, "run": f"go test -vet=off -count=1 {extra} -run '{rx}' {pkg}".replace('  ',' ')},
   "confirmed_by_me": {"applies": True, "go build ./...": "ok", "existing suite with the change (go test -vet=off -count=1 ./...)": "pass",
